@@ -21,6 +21,7 @@ const (
 	Str
 	Arr
 	Map
+	Fn // a function: only the reference evaluator (package ref) builds these; S is its text, P its closure
 )
 
 type KV struct {
@@ -36,6 +37,7 @@ type V struct {
 	S string
 	A []V
 	M []KV
+	P any // Fn only
 }
 
 func I(i int64) V   { return V{K: Int, I: i} }
@@ -104,6 +106,8 @@ func rank(k Kind) int {
 		return 1
 	case Nil:
 		return 2
+	case Fn:
+		return 3
 	case Str:
 		return 4 // functions (3) sit between nil and strings
 	case Arr:
@@ -150,7 +154,7 @@ func Cmp(a, b V) int {
 		return -1
 	case Nil:
 		return 0
-	case Str:
+	case Str, Fn:
 		return strings.Compare(a.S, b.S)
 	case Arr:
 		if len(a.A) != len(b.A) {
@@ -206,6 +210,8 @@ func Identical(a, b V) bool {
 		return true
 	case Str:
 		return a.S == b.S
+	case Fn:
+		return a.P == b.P
 	case Arr:
 		if len(a.A) != len(b.A) {
 			return false
@@ -366,6 +372,8 @@ func (v V) Src() string {
 		return "nil"
 	case Str:
 		return StrSrc(v.S)
+	case Fn:
+		return "<func " + v.S + ">"
 	case Arr:
 		parts := make([]string, len(v.A))
 		for i, e := range v.A {
@@ -421,6 +429,8 @@ func (v V) Inspect() string {
 		return "nil"
 	case Str:
 		return strconv.Quote(v.S)
+	case Fn:
+		return v.S
 	case Arr:
 		parts := make([]string, len(v.A))
 		for i, e := range v.A {
